@@ -9,6 +9,7 @@ import Driver.Html
 import Driver.Tree
 import Driver.Toc
 import Driver.Latex
+import Driver.Wrap
 open Lean
 
 def dispatch (op : String) (j : Json) : Except String Json :=
@@ -21,6 +22,10 @@ def dispatch (op : String) (j : Json) : Except String Json :=
   | "ast.get" => Driver.Tree.getAstOp j
   | "toc.collect" => Driver.Toc.collectOp j
   | "latex.render" => Driver.Latex.renderOp j
+  | "md.words" => Driver.Wrap.wordsOp j
+  | "md.fill" => Driver.Wrap.fillOp j
+  | "md.prefix" => Driver.Wrap.prefixOp j
+  | "md.budget" => Driver.Wrap.budgetOp j
   | "ping" => pure (Json.str "pong")
   | _ => throw s!"unknown op {op}"
 
